@@ -297,6 +297,12 @@ def bitsMon (mon : Mon) (id : Nat) (w : List String) (st : String) (a : KV) : Mo
     (if op == "truncate" ∨ op == "fill_all" ∨ op == "clear_all" ∨ op == "or_" ∨ op == "index_of" then good mon
      else bad mon s!"B{id} {op}: unexpected precondition answer") else
   if st == "oom" then (if (op == "resize" ∧ big x) then good mon else bad mon s!"B{id} {op}: spurious out-of-memory") else
+  if op == "resize" ∧ big x then
+    -- a huge bit set is not materialised by the monitor: only the header is judged
+    (if st != "ok" then bad mon s!"B{id} resize {x}: status {st}"
+     else if kvN a "n" ≠ x then bad mon s!"B{id} resize {x}: answered ok but size() = {kvN a "n"}"
+     else if kvN a "cap" < kvN a "n" then bad mon s!"B{id} resize {x}: answered ok but capacity() = {kvN a "cap"} < size()"
+     else good mon) else
   if st != "ok" then bad mon s!"B{id} {op}: status {st}" else
   let (mon, l', r) : Mon × List Bool × Option String := match op with
     | "resize" => (mon, l.take x ++ List.replicate (x - n) v, none)
@@ -376,6 +382,12 @@ def strMon (mon : Mon) (id : Nat) (w : List String) (st : String) (a : KV) : Mon
   let same : Bool := kvN a "n" == l.length && (if l.length ≤ 100000 then kv a "s" == some (if l.isEmpty then "-" else bytesHex l) else true)
   if st == "inval" then
     (if isNum ∧ ¬ (y = 0 ∨ y = 2 ∨ y = 8 ∨ y = 10 ∨ y = 16) ∧ same then good mon else bad mon s!"S{id} {op}: unexpected invalid-argument answer or contents changed") else
+  if st == "oom" ∧ op == "append_format_w" then
+    -- an output too large for the allocator: the failure must leave the string as it was, terminator included
+    (if x < 2 ^ 20 then bad mon s!"S{id} {op}: spurious out-of-memory"
+     else if !same then bad mon s!"S{id} {op}: failed but the contents changed"
+     else if kv a "nul" ≠ some "1" then bad mon s!"S{id} {op}: failed (out of memory) and left the string without its null terminator"
+     else good mon) else
   if st == "oom" then
     (if (op == "append_chars" ∨ op == "assign_chars" ∨ op == "pad_end") ∧ (y ≥ 2 ^ 40 ∨ x ≥ 2 ^ 40) ∧ same then good mon
      else bad mon s!"S{id} {op}: spurious out-of-memory or contents changed") else
@@ -387,8 +399,8 @@ def strMon (mon : Mon) (id : Nat) (w : List String) (st : String) (a : KV) : Mon
   let reported : Option (List Nat) := (kv a "s").bind fun s => if s == "-" then some [] else hexBytes? s
   let (mon, l', chk) : Mon × List Nat × Option String := match op with
     | "new" => (mon, [], none)
-    | "assign" | "assign_span" => (mon, bs, none)
-    | "append" => (mon, l ++ bs, none)
+    | "assign" | "assign_span" | "assign_format" => (mon, bs, none)
+    | "append" | "append_format" => (mon, l ++ bs, none)
     | "append_char" => (mon, l ++ [x % 256], none)
     | "assign_char" => (mon, [x % 256], none)
     | "append_chars" => (mon, l ++ List.replicate y (x % 256), none)
@@ -434,6 +446,7 @@ def arenaMon (mon : Mon) (w : List String) (st : String) (a : KV) : Mon × Strin
   | "get" =>
     if st == "null" then (if big (nat (w.getD 3 "0")) then good mon else bad mon "A get: spurious null") else
     if kvN a "bytes" < nat (w.getD 3 "0") then bad mon "A get: allocated size smaller than requested" else
+    if kvN a "bytes" ≤ 2048 ∧ kv a "loc" == some "dyn" then bad mon "A get: a size-class request is served from a dynamic block (some block was released with a wrong size)" else
     match regionStep mon s!"A{nat (w.getD 2 "0")}" a with
     | (mon, some why) => bad mon why
     | (mon, none) => good mon
